@@ -235,6 +235,12 @@ func definitelyNonNil(v ssa.Value, depth int) bool {
 			}
 		}
 		return true
+	case *ssa.UnOp:
+		// load of a local cell (results are spilled to cells when the function has defers)
+		if sv := localLoadValue(v); sv != nil {
+			return definitelyNonNil(sv, depth+1)
+		}
+		return false
 	case *ssa.Call:
 		if f := v.Common().StaticCallee(); f != nil && f.Blocks != nil && f.Signature.Results().Len() == 1 {
 			ok := true
@@ -264,4 +270,57 @@ func condIsNilTest(c ssa.Value) (x ssa.Value, eq bool, ok bool) {
 		return b.Y, b.Op == token.EQL, true
 	}
 	return nil, false, false
+}
+
+// localLoadValue: v loads a local cell (Alloc); returns the value most recently stored to it in the same
+// block before the load, or the only value ever stored to it in the function. nil if unknown.
+func localLoadValue(v *ssa.UnOp) ssa.Value {
+	if v.Op != token.MUL {
+		return nil
+	}
+	cell, ok := v.X.(*ssa.Alloc)
+	if !ok {
+		return nil
+	}
+	b := v.Block()
+	idx := instrIndex(v)
+	for i := idx - 1; i >= 0; i-- {
+		if st, ok := b.Instrs[i].(*ssa.Store); ok && st.Addr == ssa.Value(cell) {
+			return st.Val
+		}
+		// a call between store and load could write the cell only if it escaped (closures); be conservative
+		if _, isCall := b.Instrs[i].(ssa.CallInstruction); isCall {
+			if _, isRD := b.Instrs[i].(*ssa.RunDefers); !isRD {
+				// plain calls cannot write a non-escaping cell; captured cells are handled by the single-store rule
+				continue
+			}
+		}
+	}
+	var only ssa.Value
+	n := 0
+	for _, u := range refs(cell) {
+		switch u := u.(type) {
+		case *ssa.Store:
+			if u.Addr == ssa.Value(cell) {
+				only = u.Val
+				n++
+			}
+		case *ssa.MakeClosure:
+			// captured: a closure may store to it
+			fn := u.Fn.(*ssa.Function)
+			for i, bnd := range u.Bindings {
+				if bnd == ssa.Value(cell) && i < len(fn.FreeVars) {
+					for _, r := range refs(fn.FreeVars[i]) {
+						if st, ok := r.(*ssa.Store); ok && st.Addr == ssa.Value(fn.FreeVars[i]) {
+							n += 2
+						}
+					}
+				}
+			}
+		}
+	}
+	if n == 1 {
+		return only
+	}
+	return nil
 }
